@@ -153,6 +153,8 @@ pub struct Agg {
     pub violations: Vec<Violation>,
     pub variants: Vec<Value>,
     pub notes: Vec<String>,
+    /// reasons why (part of) the run could not reach a verdict: exit 2 unless a violation was found
+    pub inconclusive: Vec<String>,
     pub exhaustive: bool,
     pub programs: u64,
 }
@@ -310,8 +312,8 @@ impl Ctx {
                                     break;
                                 }
                                 if let Some(j) = &journal {
-                                    // enumerated cases are identified by their index
-                                    write_journal(j, &[i as u32]);
+                                    // enumerated cases are journalled whole (the list may be a filtered or derived one)
+                                    write_journal_case(j, case);
                                 }
                                 res.evaluations += 1;
                                 match (v.check)(case, &mut local) {
@@ -436,7 +438,10 @@ impl Ctx {
                     }
                 }
                 if !got {
-                    agg.notes.push(format!("build '{}' produced no summary (status {:?})", label, o.status.code()));
+                    // the other build neither finished nor pinned a failing case (e.g. an abort its supervisor could
+                    // not attribute to a single case): no verdict for that build
+                    let tail: String = txt.lines().rev().take(3).collect::<Vec<_>>().join(" | ");
+                    agg.inconclusive.push(format!("build '{}' produced no summary (status {:?}): {}", label, o.status.code(), tail));
                 }
                 got
             }
@@ -502,10 +507,15 @@ impl Ctx {
             println!("  violation[{}]: {} :: {}", v.variant, v.show, v.msg);
             println!("VIOLATION property={} replay={}", self.prop, v.path);
         }
-        if agg.violations.is_empty() {
-            0
-        } else {
+        if !agg.violations.is_empty() {
             1
+        } else if !agg.inconclusive.is_empty() {
+            for r in &agg.inconclusive {
+                println!("INCONCLUSIVE property={} reason={}", self.prop, r);
+            }
+            2
+        } else {
+            0
         }
     }
 }
@@ -553,13 +563,37 @@ pub fn write_journal(f: &std::fs::File, choices: &[u32]) {
     let _ = f.write_all_at(&buf, 0);
 }
 
+/// A whole case (enumerated variants): marker 0xFFFFFFFF, byte length, JSON.
+pub fn write_journal_case(f: &std::fs::File, case: &Case) {
+    use std::os::unix::fs::FileExt;
+    let js = case.to_json().to_string().into_bytes();
+    let mut buf = Vec::with_capacity(8 + js.len());
+    buf.extend_from_slice(&u32::MAX.to_le_bytes());
+    buf.extend_from_slice(&(js.len() as u32).to_le_bytes());
+    buf.extend_from_slice(&js);
+    let _ = f.write_all_at(&buf, 0);
+}
+
+pub fn read_journal_case(path: &str) -> Option<Case> {
+    let b = std::fs::read(path).ok()?;
+    if b.len() < 8 || u32::from_le_bytes([b[0], b[1], b[2], b[3]]) != u32::MAX {
+        return None;
+    }
+    let n = u32::from_le_bytes([b[4], b[5], b[6], b[7]]) as usize;
+    if b.len() < 8 + n {
+        return None;
+    }
+    let v: Value = serde_json::from_slice(&b[8..8 + n]).ok()?;
+    Case::from_json(&v)
+}
+
 pub fn read_journal(path: &str) -> Option<Vec<u32>> {
     let b = std::fs::read(path).ok()?;
     if b.len() < 4 {
         return None;
     }
     let n = u32::from_le_bytes([b[0], b[1], b[2], b[3]]) as usize;
-    if b.len() < 4 + 4 * n {
+    if n == u32::MAX as usize || b.len() < 4 + 4 * n {
         return None;
     }
     Some((0..n).map(|i| u32::from_le_bytes([b[4 + 4 * i], b[5 + 4 * i], b[6 + 4 * i], b[7 + 4 * i]])).collect())
